@@ -321,6 +321,12 @@ func (st *State) model() map[string]string {
 		}
 		cnt[n.Label]++
 		pv := ParseSMTValue(vals[n.Name])
+		if n.Sort == SFP {
+			eb, sb := fpEbSb(n.W)
+			if b, ok := ParseFPValue(vals[n.Name], eb, sb); ok {
+				pv = b
+			}
+		}
 		if bi, ok := pv.(*big.Int); ok && n.Sort == SBV && strings.HasPrefix(n.Kind, "int") && bi.Bit(n.W-1) == 1 {
 			pv = new(big.Int).Sub(bi, new(big.Int).Lsh(big.NewInt(1), uint(n.W)))
 		}
